@@ -267,6 +267,9 @@ def check(case, ignore_regions=False) -> Outcome:
                 ordering = rng.shuffle(own)
                 if case["ordering"] == "own+extra":
                     ordering = ordering + [Variable("E")]
+                if case["shuffle"] % 3 == 0 and all(type(v) is Variable and v.star is None for v in ordering):
+                    # the ordering is typed Iterable[str | Variable]: plain names, as a one-shot iterator
+                    ordering = iter([v.name for v in ordering])
             r = chain_expand(a, reorder=case["reorder"], ordering=ordering)
             bad = compare(r, lambda env: val(a, env), "chain-expansion-changed-meaning")
             if bad is None:
